@@ -191,17 +191,14 @@ class History(object):
             self.ctx = "top"
         return " [wraps 2^64]" if n and end > (1 << 64) else ""
 
-    ROOT = {"zero": "zero-sized page hides the page at the same address (%s)",
-            "top": "page ending at 2^64 is mishandled (%s)"}
+    ROOT = {"zero": "an empty page shares the address of a touched page (%s)",
+            "top": "a touched page ends at 2^64 (%s)"}
 
     def fail(self, key, what, **kw):
-        # (independent=True: the symptom cannot come from a failed page lookup, keep its own key)
-        # every divergence of an operation that touches a page sharing its
-        # address with an empty page, or a page ending at 2**64, is attributed to that root cause
-        independent = kw.pop("independent", False)
-        if self.ctx in self.ROOT and not independent:
-            what = "%s: %s" % (key, what)
-            key = self.ROOT[self.ctx] % self.group
+        kw.pop("independent", None)
+        if self.ctx in self.ROOT:
+            # context only (both lookup defects were repaired by 73ab58a / accc712): keys are not rewritten
+            what = "%s [context: %s]" % (what, self.ROOT[self.ctx] % self.group)
         self.rec.fail(key, what, self.witness(**kw))
 
     def note(self, kind, outcome=""):
